@@ -5,7 +5,7 @@
    Spec: Spec/Place.v ([Feasible], [wf_problem] = the documented domain, [consistent]). *)
 From Coq Require Import ZArith List Bool.
 Require Import Rig.Model.Base Rig.Model.Place Rig.Spec.Place Rig.Proofs.Place Rig.Proofs.PlaceCore
-        Rig.Proofs.PlaceMerge Rig.Proofs.PlaceSeq Rig.Proofs.PlaceComplete Rig.Proofs.PlaceSA.
+        Rig.Proofs.PlaceMerge Rig.Proofs.PlaceSeq Rig.Proofs.PlaceComplete Rig.Proofs.PlaceSA Rig.Proofs.PlaceErrors Rig.Proofs.PlaceHilbert.
 Import ListNotations.
 Open Scope Z_scope.
 
@@ -57,6 +57,24 @@ Theorem C02_seq_place_complete :
     exists pl, seq_place vr m cs vertex_order chip_order = Ok pl.
 Proof. exact seq_place_complete. Qed.
 
+(* The Hilbert chip order (model of hilbert.hilbert / hilbert_chip_order, compared with the code's on every
+   case) meets the side condition of the completeness theorem -- every working chip exactly once -- for all
+   machines up to 16 x 16 (finite statement, the bound is part of it: the curve of level k <= 4 is checked by
+   computation to enumerate the 2^k x 2^k square without repetition); hence hilbert.place is complete there.
+   For breadth_first.place / rcm.place the orders come from set iteration in CPython, which is not modelled:
+   the check records them and evaluates the side conditions per instance. *)
+Theorem C02_hilbert_chip_order_ok_upto_16 :
+  forall m, pm_width m <= 16 -> pm_height m <= 16 -> chip_order_ok m (hilbert_chip_order m).
+Proof. exact hilbert_chip_order_ok. Qed.
+
+Theorem C02_hilbert_place_complete_upto_16 :
+  forall vr m cs r0 vertex_order,
+    wf_problem vr m cs -> unit_premise vr m cs r0 ->
+    pm_width m <= 16 -> pm_height m <= 16 ->
+    (forall vo, vertex_order = Some vo -> vertex_order_ok vr vo) ->
+    exists pl, seq_place vr m cs vertex_order (Some (hilbert_chip_order m)) = Ok pl.
+Proof. exact hilbert_place_complete. Qed.
+
 (* U -- random placer: completeness under the same premise and termination, for every stream of random
    choices of length >= |vertices| + |working chips| (a rejected chip leaves the candidate set, so no run of
    rand.place draws more than that many samples). *)
@@ -71,6 +89,29 @@ Theorem C02_rand_place_terminates :
   forall vr m cs oracle,
     (length vr + length (raster m) <= length oracle)%nat -> rand_place vr m cs oracle <> OutOfFuel.
 Proof. exact rand_place_terminates. Qed.
+
+(* U -- "never fails with any other exception, always terminates": on a well-formed, consistent problem the
+   outcome of the sequential family (documented orders: a caller-supplied vertex order lists every vertex
+   exactly once; any chip order) and of the random placer (any stream of |vertices| + |working chips|
+   choices) is a placement, InsufficientResourceError or InvalidConstraintError -- never the model's
+   OtherError (KeyError / IndexError / ValueError ...) nor an exhausted bound. *)
+Theorem C02_seq_place_documented_errors :
+  forall vr m cs vertex_order chip_order,
+    wf_problem vr m cs -> consistent cs ->
+    (forall vo, vertex_order = Some vo -> NoDup vo /\ vertex_order_ok vr vo) ->
+    (exists pl, seq_place vr m cs vertex_order chip_order = Ok pl)
+    \/ seq_place vr m cs vertex_order chip_order = Failed E_insufficient
+    \/ seq_place vr m cs vertex_order chip_order = Failed E_invalid.
+Proof. exact seq_place_documented_errors. Qed.
+
+Theorem C02_rand_place_documented_errors :
+  forall vr m cs oracle,
+    wf_problem vr m cs -> consistent cs ->
+    (length vr + length (raster m) <= length oracle)%nat ->
+    (exists pl, rand_place vr m cs oracle = Ok pl)
+    \/ rand_place vr m cs oracle = Failed E_insufficient
+    \/ rand_place vr m cs oracle = Failed E_invalid.
+Proof. exact rand_place_documented_errors. Qed.
 
 (* U -- simulated annealing (sa/algorithm.py with the Python kernel; shuffles, the draws of every swap
    attempt and the accept decisions are explicit oracle inputs).
